@@ -1,8 +1,8 @@
 """C09 — Legaliser constraint system admits exactly the legal floorplans.
 
 GEKKO never solves here: the real `Model(...)` of tools/legalfloor is built (that only creates variables and
-`Equation` objects), the global slack is forced to 0 (`expression_tree.set_epsilon`), and every `Equation`
-that carries a legality condition is walked: per module `get_constraints()` (Bounds, Shapes, Attach, Intra),
+`Equation` objects), and every `Equation` that carries a legality condition is walked (under four values of the
+process-wide slack: 0, the one `Model(...)` installs (0.27), 0.05, and 5e-7, which the code clamps to 0): per module `get_constraints()` (Bounds, Shapes, Attach, Intra),
 then the groups Area, Inter, Fix of `ModelWrapper.constraints`.
 
 Correspondence (model = FV/Model/Legal.lean run at Float by `drv_legal`):
@@ -10,11 +10,13 @@ Correspondence (model = FV/Model/Legal.lean run at Float by `drv_legal`):
   * struct  : the expression trees of every equation, node for node, constants bit-equal, names, groups,
               comparison, hard flag, order;
   * eval    : `lhs.evaluate()`, `rhs.evaluate()`, `is_equation_met()` of every equation under assigned
-              configurations vs the model's `eval` / `met` (eps = 0, tol = 1e-6).
+              configurations and each slack vs the model's `eval` / `met` (eps = the slack, clamped below 1e-6; tol = 1e-6).
 Spec on implementation: `Legal` (FV/Props/C09.lean) re-implemented independently with `fractions.Fraction`
 decides for every configuration which legality clauses hold / are violated by a clear margin; the set of
 groups with an unmet equation must be exactly the set of violated clauses (empty for legal configurations,
-in particular for the input configuration of a legal floorplan).
+in particular for the input configuration of a legal floorplan).  At every slack e the relaxed clauses of the
+slack theorems (`*_met_iff`, delta = e + 1e-6), evaluated exactly, must agree group by group with what
+`is_equation_met()` reports; probes sit at 0.5 / 0.9 / 1.1 / 1.25 x the threshold (also across the 1e-6 clamp).
 """
 from __future__ import annotations
 
@@ -29,7 +31,8 @@ TRUSTED = [
     "Lean 4.33 kernel; Mathlib lemmas (Real.sqrt, Real.rpow, ordered fields); axioms ⊆ {propext, Classical.choice, Quot.sound}",
     "hand-written model FV/Model/Legal.lean — fidelity to tools/legalfloor/{legalfloor,expression_tree,model}.py checked by this "
     "correspondence run (trees node for node, evaluation bit for bit), not proved",
-    "theorems are over ℝ with slack ε = 0 and tolerance 0; `is_equation_met` adds 1e-6 and evaluates in IEEE doubles (executed, not proved)",
+    "theorems are over ℝ for every slack e >= 0 and constant t >= 0 (exact system: e = t = 0); `is_equation_met` is executed at "
+    "slacks 0 / 0.27 (installed by Model) / 0.05 / 5e-7 with t = 1e-6 in IEEE doubles and compared with the relaxed clauses (not proved for doubles)",
     "GEKKO is not exercised: what the solver does with the equations (and its variable bounds lb/ub) is outside this check",
     "STOG roles (`Rectangle.location`) are taken as the repository assigns them (C06); positive rectangle sizes are a hypothesis "
     "(GEKKO variable bound lb = 0.1 on w/h)",
@@ -278,6 +281,81 @@ def legal_status(B: Built, orders, cfg):
     return st
 
 
+def eq_violations(B: Built, orders, cfg):
+    """per group the exact amounts by which each equation (in its own units) is missed: the equation is met with
+    slack e and constant t iff amount <= e + t (`*_met_iff` of FV/Props/C09.lean).  Inter: the pairs (tX, tY)."""
+    F = Fraction
+    dw, dh, r = F(B.dw), F(B.dh), F(B.r)
+    C = [[tuple(F(v) for v in b) for b in boxes] for boxes in cfg]
+    out = {g: [] for g in GROUPS}
+    thin_r = r * 1 / (r * r + 1)
+    for m, bs in enumerate(C):
+        for (x, y, w, h) in bs:
+            out["Bounds"] += [-(x - w / 2), -(y - h / 2), x + w / 2 - dw, y + h / 2 - dh]
+            out["Shapes"].append(10 * thin_r - 10 * (w * h / (w * w + h * h)))
+        out["Area"].append(F(B.inmods[m]["area"]) - sum(w * h for (_, _, w, h) in bs))
+        x0, y0, w0, h0 = bs[0]
+        order, sides = orders[m]
+        orig = [tuple(F(v) for v in B.inmods[m]["rects"][k][:4]) for k in order]
+        for i, sd in enumerate(sides):
+            if sd == "T":
+                continue
+            x, y, w, h = bs[i]
+            if sd in "NS":
+                T = y0 + h0 / 2 + h / 2 if sd == "N" else y0 - h0 / 2 - h / 2
+                out["Attach"] += [abs(y - T), (x0 - w0 / 2 + w / 2) - x, x - (x0 + w0 / 2 - w / 2)]
+            else:
+                T = x0 + w0 / 2 + w / 2 if sd == "E" else x0 - w0 / 2 - w / 2
+                out["Attach"] += [abs(x - T), (y0 - h0 / 2 + h / 2) - y, y - (y0 + h0 / 2 - h / 2)]
+        for sd in SIDES:
+            idx = [i for i, s_ in enumerate(sides) if s_ == sd]
+            if sd in "NS":
+                idx = sorted(idx, key=lambda i: orig[i][0])
+                span = [(bs[i][0] - bs[i][2] / 2, bs[i][0] + bs[i][2] / 2) for i in idx]
+            else:
+                idx = sorted(idx, key=lambda i: orig[i][1])
+                span = [(bs[i][1] - bs[i][3] / 2, bs[i][1] + bs[i][3] / 2) for i in idx]
+            for a in range(len(span) - 1):  # the equations compare neighbours only
+                out["Intra"].append(span[a][1] - span[a + 1][0])
+        im = B.inmods[m]
+        if im["hard"]:
+            for i, (x, y, w, h) in enumerate(bs):
+                out["Fix"] += [abs(w - orig[i][2]), abs(h - orig[i][3])]
+                if i > 0:
+                    out["Fix"] += [abs(x - (orig[i][0] - orig[0][0] + x0)), abs(y - (orig[i][1] - orig[0][1] + y0))]
+                elif im["fixed"]:
+                    out["Fix"] += [abs(x - orig[0][0]), abs(y - orig[0][1])]
+    n = len(C)
+    for m in range(n):
+        for k in range(m + 1, n):
+            for (x1, y1, w1, h1) in C[m]:
+                for (x2, y2, w2, h2) in C[k]:
+                    out["Inter"].append(((x1 - x2) ** 2 - (w1 + w2) ** 2 / 4, (y1 - y2) ** 2 - (h1 + h2) ** 2 / 4))
+    return out
+
+
+def met_status(B: Built, viol, delta: Fraction, mu: Fraction):
+    """{group: 'ok' | 'viol' | 'unsure'}: every equation of the group met at slack+constant = delta, graded with margin mu."""
+    tau = Fraction(1, 100) * min(Fraction(B.dw), Fraction(B.dh)) / len(B.inmods)
+
+    def inter_met(tx, ty, d):
+        return (tx + d) + (ty + d) >= 0 or (tx + d) * (ty + d) <= tau * tau
+
+    st = {}
+    for g in GROUPS:
+        if g == "Inter":
+            gs = ["ok" if inter_met(tx, ty, delta - mu) else ("viol" if not inter_met(tx, ty, delta + mu) else "unsure")
+                  for (tx, ty) in viol[g]]
+        else:
+            gs = ["ok" if v <= delta - mu else ("viol" if v >= delta + mu else "unsure") for v in viol[g]]
+        st[g] = "viol" if "viol" in gs else ("unsure" if "unsure" in gs else "ok")
+    return st
+
+
+# slacks every configuration is evaluated at: (label, plain value of the slack tree; None = the tree Model(...) installed)
+SLACKS = [("0", 0.0), ("real", None), ("0.05", 0.05), ("5e-7(below the 1e-6 clamp)", 5e-7)]
+
+
 # ----------------------------------------------------------------------------- configurations
 def input_cfg(B: Built, orders):
     return [[tuple(float(v) for v in B.inmods[m]["rects"][k][:4]) for k in orders[m][0]] for m in range(len(orders))]
@@ -295,9 +373,22 @@ def variants(rng, B: Built, orders, base, count):
         kind = B.inmods[m]
         bs = cfg[m]
         sides = orders[m][1]
-        op = rng.choice(["nudge", "shift", "far", "onto", "thin", "shrink", "detach", "slide", "swap", "resize", "branchmove", "grow"])
+        op = rng.choice(["nudge", "shift", "far", "onto", "thin", "shrink", "detach", "slide", "swap", "resize", "branchmove", "grow",
+                         "edge", "edge"])
         what = op
-        if op in ("nudge", "shift", "far", "onto"):
+        if op == "edge":
+            # stick out of the die by a multiple of (slack + 1e-6) for one of the slacks the equations are evaluated at:
+            # just inside / just outside the acceptance threshold of is_equation_met (also across the 1e-6 clamp of the slack)
+            lim = rng.choice([1e-6, 0.05 + 1e-6, B.real_eps + 1e-6])
+            f = lim * rng.choice([0.5, 0.9, 1.1, 1.25])
+            if rng.random() < 0.5:
+                lo = min(x - w / 2 for (x, y, w, h) in bs)
+                cfg[m] = [(x - lo - f, y, w, h) for (x, y, w, h) in bs]
+            else:
+                hi = max(y + h / 2 for (x, y, w, h) in bs)
+                cfg[m] = [(x, y + (B.dh - hi) + f, w, h) for (x, y, w, h) in bs]
+            what = "edge:%g" % f
+        elif op in ("nudge", "shift", "far", "onto"):
             if op == "nudge":
                 dx, dy = unit * rng.choice([-1, -0.5, 0, 0.5, 1]), unit * rng.choice([-1, -0.5, 0, 0.5, 1])
             elif op == "shift":
@@ -442,20 +533,30 @@ def _check_built(ctx: Ctx, inp, B: Built, nvar, fixed_cfgs, size) -> None:
         ctx.count("roles:not-a-single-trunk-labelling")
 
     reqs = ["F utils " + mods_w, "F gen " + P + " " + mods_w]
-    zero, tol = f2hex(0.0), f2hex(1e-6)
-    for (_, c) in cfgs:
-        reqs.append("F eval %s %s %s %s %s" % (P, zero, tol, mods_w, wire_cfg(c)))
-    replies = ctx.model(reqs)
-
-    # implementation observations
-    obs = []
-    for (what, c) in cfgs:
+    tol = f2hex(1e-6)
+    raws = []
+    obs = {}
+    for (lab, raw) in SLACKS:
         try:
-            B.assign(c)
+            rawv = B.set_slack(raw)
         except Exception as ex:  # noqa: BLE001
-            ctx.spec_fail("operation-raised", dict(inp, what=what), {"operation": "ExpressionTree.assign", "raises": type(ex).__name__}, size)
+            ctx.spec_fail("operation-raised", inp, {"operation": "set_epsilon", "raises": type(ex).__name__}, size)
             return
-        obs.append(B.observe())
+        raws.append(rawv)
+        for (_, c) in cfgs:
+            reqs.append("F eval %s %s %s %s %s" % (P, f2hex(rawv), tol, mods_w, wire_cfg(c)))
+        # implementation observations at this slack
+        obs[lab] = []
+        for (what, c) in cfgs:
+            try:
+                B.assign(c)
+            except Exception as ex:  # noqa: BLE001
+                ctx.spec_fail("operation-raised", dict(inp, what=what), {"operation": "ExpressionTree.assign", "raises": type(ex).__name__}, size)
+                return
+            obs[lab].append(B.observe())
+    B.set_slack(0.0)
+    replies = ctx.model(reqs)
+    ctx.extra["slack_installed_by_Model"] = B.real_eps
 
     if replies is not None:
         iu = ser_utils(B.utils)
@@ -467,67 +568,92 @@ def _check_built(ctx: Ctx, inp, B: Built, nvar, fixed_cfgs, size) -> None:
             first = next((k for k, (a, b) in enumerate(zip(impl_eqs, mrep[1:])) if a != b), min(len(impl_eqs), len(mrep) - 1))
             ctx.disagree("struct", inp, {"count": len(impl_eqs), "first_diff": impl_eqs[first][:500] if first < len(impl_eqs) else None},
                          {"count": mrep[0], "first_diff": mrep[1 + first][:500] if 1 + first < len(mrep) else None}, size)
-        for k, (what, c) in enumerate(cfgs):
-            rep = replies[2 + k].split(" ; ")
-            inp_c = dict(inp, cfg=[[[f2hex(v) for v in b] for b in boxes] for boxes in c], what=what)
-            if rep[0] != str(len(obs[k])):
-                ctx.disagree("eval", inp_c, len(obs[k]), rep[0][:100], size)
-                continue
-            for j, (o, mline) in enumerate(zip(obs[k], rep[1:])):
-                mt = mline.split()
-                if len(o) == 1:
-                    if "none" not in mt:
-                        ctx.disagree("eval", inp_c, {"eq": B.eqs[j][1].name, "impl": o[0]}, mline, size)
+        for si, (lab, _) in enumerate(SLACKS):
+            eff = 0.0 if raws[si] < 1e-6 else raws[si]
+            for k, (what, c) in enumerate(cfgs):
+                rep = replies[2 + si * len(cfgs) + k].split(" ; ")
+                ob = obs[lab][k]
+                inp_c = dict(inp, cfg=[[[f2hex(v) for v in b] for b in boxes] for boxes in c], what=what, slack=lab)
+                ctx.case("eval", (key, lab, tuple(tuple(b) for boxes in c for b in boxes)), True, None)
+                if rep[0] != str(len(ob)):
+                    ctx.disagree("eval", inp_c, len(ob), rep[0][:100], size)
                     continue
-                if "none" in mt:
-                    ctx.disagree("eval", inp_c, {"eq": B.eqs[j][1].name, "impl": [f2hex(o[0]), f2hex(o[1]), o[2]]}, mline, size)
-                    continue
-                ml_, mr_, mm_ = hex2f(mt[0]), hex2f(mt[1]), mt[2] == "1"
-                exact = f2hex(o[0]) == mt[0] and f2hex(o[1]) == mt[1]
-                sc_ = max(1.0, abs(o[0]), abs(o[1]))
-                if not exact:
-                    if abs(o[0] - ml_) <= 1e-9 * sc_ and abs(o[1] - mr_) <= 1e-9 * sc_:
-                        ctx.drift += 1
-                    else:
-                        ctx.disagree("eval", inp_c, {"eq": B.eqs[j][1].name, "impl": [f2hex(o[0]), f2hex(o[1])]}, mline, size)
+                for j, (o, mline) in enumerate(zip(ob, rep[1:])):
+                    mt = mline.split()
+                    if len(o) == 1:
+                        if "none" not in mt:
+                            ctx.disagree("eval", inp_c, {"eq": B.eqs[j][1].name, "impl": o[0]}, mline, size)
                         continue
-                if o[2] != mm_:
-                    # only meaningful away from the 1e-6 threshold
-                    if exact or abs(abs(o[0] - o[1]) - 1e-6) > 1e-9 * sc_:
-                        ctx.disagree("met", inp_c, {"eq": B.eqs[j][1].name, "impl": o[2]}, mline, size)
-                    else:
-                        ctx.ties += 1
+                    if "none" in mt:
+                        ctx.disagree("eval", inp_c, {"eq": B.eqs[j][1].name, "impl": [f2hex(o[0]), f2hex(o[1]), o[2]]}, mline, size)
+                        continue
+                    ml_, mr_, mm_ = hex2f(mt[0]), hex2f(mt[1]), mt[2] == "1"
+                    exact = f2hex(o[0]) == mt[0] and f2hex(o[1]) == mt[1]
+                    sc_ = max(1.0, abs(o[0]), abs(o[1]))
+                    if not exact:
+                        if abs(o[0] - ml_) <= 1e-9 * sc_ and abs(o[1] - mr_) <= 1e-9 * sc_:
+                            ctx.drift += 1
+                        else:
+                            ctx.disagree("eval", inp_c, {"eq": B.eqs[j][1].name, "impl": [f2hex(o[0]), f2hex(o[1])]}, mline, size)
+                            continue
+                    if o[2] != mm_:
+                        # only meaningful away from the acceptance threshold slack + 1e-6
+                        if exact or abs(abs(o[0] - o[1]) - (eff + 1e-6)) > 1e-9 * sc_:
+                            ctx.disagree("met", inp_c, {"eq": B.eqs[j][1].name, "impl": o[2], "slack": lab}, mline, size)
+                        else:
+                            ctx.ties += 1
 
     # spec on the implementation
     if not stog:
         return
     groups = [g for g, _ in B.eqs]
+    mu = Fraction(1, 10 ** 9)  # far above the rounding error of evaluate() (~1e-12), far below the probes (2.5e-7)
     for k, (what, c) in enumerate(cfgs):
         inp_c = dict(inp, cfg=[[[f2hex(v) for v in b] for b in boxes] for boxes in c], what=what)
         st = legal_status(B, orders, c)
-        errs = [j for j, o in enumerate(obs[k]) if len(o) == 1]
-        if errs:
-            ctx.spec_fail("evaluate-raises", inp_c, {"eq": B.eqs[errs[0]][1].name, "error": obs[k][errs[0]][0]}, size)
-            continue
-        unmet = {}
-        for j, o in enumerate(obs[k]):
-            if not o[2]:
-                unmet.setdefault(groups[j], []).append(B.eqs[j][1].name)
-        viol = {g for g, s_ in st.items() if s_ == "viol"}
-        unsure = {g for g, s_ in st.items() if s_ == "unsure"}
-        label = "legal" if not viol and not unsure else ("unsure" if unsure and not viol else "violates:" + "+".join(sorted(viol)))
-        ctx.case("spec", (key, tuple(tuple(b) for boxes in c for b in boxes)), label != "unsure", None)
-        ctx.count("cfg:" + label)
+        ev = eq_violations(B, orders, c)
         if any(b[2] < 0.1 or b[3] < 0.1 for boxes in c for b in boxes):
             ctx.count("cfg-with-a-side-below-variable-bound-0.1")
-        if what == "input":
-            ctx.count("input:" + label)
-        for g in GROUPS:
-            if st[g] == "ok" and g in unmet:
-                clause = "input_satisfies" if what == "input" and not viol and not unsure else "complete." + g
-                ctx.spec_fail(clause, inp_c, {"clause_holds_but_unmet": unmet[g][:4], "status": st, "what": what}, size)
-            elif st[g] == "viol" and g not in unmet:
-                ctx.spec_fail("sound." + g, inp_c, {"clause_violated_but_all_equations_met": g, "status": st, "what": what}, size)
+        for si, (lab, _) in enumerate(SLACKS):
+            ob = obs[lab][k]
+            eff = Fraction(0) if raws[si] < 1e-6 else Fraction(raws[si])
+            inp_s = dict(inp_c, slack=lab)
+            errs = [j for j, o in enumerate(ob) if len(o) == 1]
+            if errs:
+                ctx.spec_fail("evaluate-raises", inp_s, {"eq": B.eqs[errs[0]][1].name, "error": ob[errs[0]][0]}, size)
+                continue
+            unmet = {}
+            for j, o in enumerate(ob):
+                if not o[2]:
+                    unmet.setdefault(groups[j], []).append(B.eqs[j][1].name)
+            # (a) the relaxed clauses of the slack theorems, exactly, at delta = slack + 1e-6
+            ms = met_status(B, ev, eff + Fraction(1, 10 ** 6), mu)
+            mviol = {g for g, s_ in ms.items() if s_ == "viol"}
+            munsure = {g for g, s_ in ms.items() if s_ == "unsure"}
+            mlabel = "all-met" if not mviol and not munsure else ("unsure" if munsure and not mviol else "unmet:" + "+".join(sorted(mviol)))
+            ctx.case("spec-slack", (key, lab, tuple(tuple(b) for boxes in c for b in boxes)), mlabel != "unsure", None)
+            ctx.count("slack %s: %s" % (lab, "all-met" if mlabel == "all-met" else ("unsure" if mlabel == "unsure" else "some-unmet")))
+            for g in GROUPS:
+                if ms[g] == "ok" and g in unmet:
+                    ctx.spec_fail("slack-complete." + g, inp_s, {"relaxed_clause_holds_but_unmet": unmet[g][:4], "status": ms, "what": what}, size)
+                elif ms[g] == "viol" and g not in unmet:
+                    ctx.spec_fail("slack-sound." + g, inp_s, {"relaxed_clause_violated_but_all_equations_met": g, "status": ms, "what": what}, size)
+            if lab != "0":
+                continue
+            # (b) slack 0: the geometric legality clauses
+            viol = {g for g, s_ in st.items() if s_ == "viol"}
+            unsure = {g for g, s_ in st.items() if s_ == "unsure"}
+            label = "legal" if not viol and not unsure else ("unsure" if unsure and not viol else "violates:" + "+".join(sorted(viol)))
+            ctx.case("spec", (key, tuple(tuple(b) for boxes in c for b in boxes)), label != "unsure", None)
+            ctx.count("cfg:" + label)
+            if what == "input":
+                ctx.count("input:" + label)
+            for g in GROUPS:
+                if st[g] == "ok" and g in unmet:
+                    clause = "input_satisfies" if what == "input" and not viol and not unsure else "complete." + g
+                    ctx.spec_fail(clause, inp_c, {"clause_holds_but_unmet": unmet[g][:4], "status": st, "what": what}, size)
+                elif st[g] == "viol" and g not in unmet:
+                    ctx.spec_fail("sound." + g, inp_c, {"clause_violated_but_all_equations_met": g, "status": st, "what": what}, size)
 
 
 CORPUS_YAML = """
@@ -556,11 +682,11 @@ def run(ctx: Ctx) -> None:
         check_instance(ctx, base, 10)
     if ctx.budget <= 1.0:
         check_instance(ctx, {"yaml": CORPUS_YAML, "dw": 20.0, "dh": 20.0, "r": 3.0, "fam": "corpus"}, 30)
-    for _ in range(ctx.n(120, 3000)):
+    for _ in range(ctx.n(60, 2000)):
         inst = gen_instance(ctx.rng)
         inp = {"yaml": yaml_of(inst), "dw": float(inst["dw_lat"] * inst["s"]), "dh": float(inst["dh_lat"] * inst["s"]),
                "r": inst["r"], "fam": inst["fam"]}
-        check_instance(ctx, inp, 14)
+        check_instance(ctx, inp, 12)
     ctx.assumptions.append("rectangle sizes of a configuration are positive (GEKKO variable bounds lb = 0.1 on w, h; reported in "
                            "coverage.variable_bounds_lb_on_w_h, not part of the property)")
     ctx.assumptions.append("max_ratio >= 1; die and ratio are floats; at least one module")
